@@ -12,6 +12,7 @@ DECIDED = ("R1 every value that can reach the move component of search_with's re
            "that leaves the loop (no pass can complete without the limit being consulted); R5 the result is only returned from behind the deepening loop (no early exit that skips "
            "the search while legal moves may exist); R3 (no panic) is the C07 obligation set restricted to Engine::search's call tree and is reported there.")
 DECIDED = DECIDED + ' R90 premises re-run here: C14 C14.R2, C14.R5; C16 C16.R2; C03 C03.R4, C03.R6.'
+DECIDED = DECIDED + ' R6 every exit of the deepening loop that is not a timeout exit (the stop on a mate score) is dominated by the store of the finished pass best move into the returned value.'
 NOT_DECIDED = "termination of each pass as such (depends on the move generator being finite: C10) and 'returns a move whenever the first pass finished' beyond R5 (depends on scores)"
 EXPLANATION = "K2: reaching-definition closure (origins) of the returned move; loop/exit structure of the deepening loop; K4 table for the dispatch."
 
@@ -162,6 +163,64 @@ def _dispatch_swapped(P):
         t = blk["t"]
         if t["k"] == "switch" and len(t["tg"]) == 2:
             t["tg"][0][1], t["tg"][1][1] = t["tg"][1][1], t["tg"][0][1]
+
+
+@rule("C11.R6", "a finished pass is committed before the deepening loop can be left for any reason other than the timeout")
+def r6(ctx):
+    """`it returns a move whenever legal moves exist and its first pass finished`: the only way out of the deepening loop that does not come from
+    the timeout (the stop on a mate score) must lie behind the statements that copy the pass's best move into what is returned."""
+    P = ctx.P
+    key = P.find_fn("Engine::search_with", "chess_engine")
+    ctx.used_body(key)
+    body = P.body(key)
+    site = body.get("def_span")
+    c = cfg_of(body)
+    loops = c.loops()
+    if not loops:
+        raise AnchorError("search_with has no loop")
+    outer = max(loops, key=lambda h: len(loops[h]))
+    bl = loops[outer]
+    # the locals the returned pair is read from: follow single-definition copies (compiler temporaries, `let S { a, b } = acc`) back to the
+    # local(s) that are assigned more than once - the accumulator(s) of the result - by index, not by name
+    def base(l, depth=0):
+        defs = k2.local_defs(body, l)
+        if depth < 6 and len(defs) == 1 and defs[0][0] == "stmt":
+            r = defs[0][2]["r"]
+            if r.get("k") == "use" and r["o"].get("k") in ("copy", "move"):
+                return base(r["o"]["p"]["l"], depth + 1)
+        return l
+    res = set()
+    for bi, s in return_sites(body):
+        for o in __import__("analysis.facts", fromlist=["x"]).walk_operands(s):
+            if o.get("k") in ("copy", "move"):
+                res.add(base(o["p"]["l"]))
+    def holds_move(l):
+        ty = body["locals"][l]["ty"]
+        return "ChessMove" in ty or "ChessMove" in str(P.adts.get(ty, ""))
+    mv_locals = {l for l in res if holds_move(l)}
+    commits = [bi for bi in bl for s in body["blocks"][bi]["s"] if s["k"] == "assign" and s["p"]["l"] in mv_locals]
+    ctx.floor("commit sites of the returned move inside the deepening loop", len(commits), 1)
+    wr = k2.ab_wrappers(P)
+    n = 0
+    for x in bl:
+        for s_ in c.succ[x]:
+            if s_ in bl or body["blocks"][s_]["t"]["k"] == "unreachable" or body["blocks"][s_].get("cleanup"):
+                continue
+            t_ = body["blocks"][x]["t"]
+            if t_["k"] in ("assert",) or (t_["k"] == "call" and s_ != t_.get("t")):
+                continue
+            d = k2.describe_operand(P, body, t_["d"]) if t_["k"] == "switch" else None
+            timeout = bool(d) and ((d[0] == "call" and "is_complete" in d[1]) or (d[0] == "discr" and d[1][0] == "call" and wr.get(T.strip_generics(d[1][1]), {}).get("form") == "option"))
+            if not timeout:
+                gs = k2.guard_calls(k2.guards_of(P, key, x))
+                timeout = any("is_complete" in c_ and v[0] is True for c_, v in gs.items())
+            if timeout:
+                continue
+            n += 1
+            ok = any(c.dominates(cb, x) for cb in commits)
+            ctx.ob(f"exit@bb{n} behind the commit", ok, f"search_with can leave the deepening loop on {str(d)[:100]} (not the timeout) before the finished pass's best move was stored into the result: "
+                   "the search returns no move although a pass completed", site=site, sample={"exit": str(d)[:60]})
+    ctx.floor("non-timeout exits of the deepening loop", n, 1)
 
 
 @rule("C11.R90", 'premises shared with other properties: C14 (C14.R2, C14.R5); C16 (C16.R2); C03 (C03.R4, C03.R6)')
